@@ -202,6 +202,8 @@ def main(chk):
     c06.rule_count(chk, M.find_class(M.cy(PA), 'ParticleArray'))
     # the npz reader rebuilds every array through ParticleArray(**dictionaries) -> _initialize (rule shared with C06)
     c06.rule_initialize_model(chk)
+    # the readers hand the recorded type to add_property: the array made for it has that type whatever the element type of the data read (rule shared with C06)
+    c06.rule_typed_creation(chk, M.find_class(M.cy(PA), 'ParticleArray'))
     chk.unit('functions', ['output.dump', 'output.load', 'Output.dump', 'NumpyOutput._dump/_load', 'HDFOutput._dump/_load and helpers', 'utils.get_particles_info',
                            'ParticleArray.get_property_arrays', 'ParticleArray.get_number_of_particles'])
     chk.assume('library facts built into the I/O model (verif_static/iomodel.py): h5py groups/datasets/attrs behave like dictionaries, a dataset keeps the data it was created with, '
